@@ -215,6 +215,11 @@ fn parse_path(
                     Cow::Borrowed(&lhs_ty),
                 )?;
 
+                // `import lib` is const, but a module is a value that can be copied into an ordinary
+                // variable (`m = lib`): a path that reaches into a module is as read-only through
+                // the copy as it is through the imported name
+                let is_const = is_const || dot_chain.goes_through_module();
+
                 Ok((
                     ReassignmentPath::DotLookup {
                         lhs: Box::new(lhs),
